@@ -199,7 +199,8 @@ class Body:
     @property
     def relfile(self):
         f = self.file
-        for pre in ("/repo/",):
+        import os
+        for pre in (os.environ.get("VERIF_REPO", "/repo").rstrip("/") + "/", "/repo/"):
             if f.startswith(pre):
                 return f[len(pre):]
         return f
@@ -481,7 +482,7 @@ def callee_is(t, pattern):
         if not n:
             continue
         if hasattr(pattern, "search"):
-            if pattern.search(n):
+            if pattern.search(n) or pattern.search(strip_generics(n)):
                 return True
         else:
             if n == pattern or n.endswith("::" + pattern) or strip_generics(n) == pattern or strip_generics(n).endswith("::" + pattern):
